@@ -232,10 +232,11 @@ def finish(spec, batch, tier, seed, level, extra_cov=None):
         lines.append(f'KNOWN-FINDING: property={spec.prop} {what}')
     harness_fail = bool(batch.harness)
     reported = []
-    for idx, v, res in unknown[:3]:
+    # (seeded-change regressions report one violation and minimise briefly: VERIF_MAX_REPORT / VERIF_MINIMISE_S)
+    for idx, v, res in unknown[:int(os.environ.get('VERIF_MAX_REPORT') or 3)]:
         try:
             from run.shrink import minimise
-            small, nrun = minimise(spec, res, v)
+            small, nrun = minimise(spec, res, v, max_wall_s=float(os.environ.get('VERIF_MINIMISE_S') or 90))
         except Exception:
             small, nrun = res, 0
             lines.append('note: minimisation failed: ' + traceback.format_exc(limit=2))
